@@ -350,6 +350,18 @@ func runConcurrency(rc *RunCtx) *Violation {
 		churn = 150 + simrt.Choose(160)
 		rc.probe("long sequential history (hundreds of distinct cache keys) before the concurrent phase")
 	}
+	focusDocs := make([][]string, len(parsers))
+	if simrt.Choose(3) == 1 {
+		rc.probe("tasks restricted to two documents per parser (collisions on the same grammar paths)")
+		for i, sp := range parsers {
+			if sp.w.verbatim || backtrackingWorlds[sp.w.name] {
+				continue
+			}
+			for k := 0; k < 2; k++ {
+				focusDocs[i] = append(focusDocs[i], sp.w.docs[simrt.Choose(len(sp.w.docs))].text)
+			}
+		}
+	}
 	deepRun := simrt.Choose(16) == 1
 	if deepRun {
 		rc.probe("all tasks parse deeply nested input (350-500 levels) concurrently")
@@ -407,7 +419,11 @@ func runConcurrency(rc *RunCtx) *Violation {
 				op.kind = "ParserForProduction"
 				op.input = []string{"1 + 2 * (3 - y)", "f(x, g(1))", "(", "a b"}[simrt.Choose(4)]
 			} else {
-				x, _ := drawDoc(sp.w, opDelims(), 4)
+				x, _ := drawDoc(sp.w, opDelims(), 24)
+				if focus := focusDocs[op.pi]; focus != nil {
+					// tasks collide on the same few documents
+					x = instantiate(focus[simrt.Choose(len(focus))], opDelims())
+				}
 				if deepRun && !backtrackingWorlds[sp.w.name] {
 					// all tasks work on deeply nested input at the same time
 					var nests []*doc
